@@ -6,6 +6,8 @@
 #include "celma/log/detail/i_log_dest.hpp"
 #include "celma/log/filter/filters.hpp"
 #include "celma/log/filter/detail/duplicate_policy.hpp"
+#include "celma/log/log_macros.hpp"
+#include "celma/log/detail/helper_function.hpp"
 #include <stdexcept>
 using namespace celma::log;
 using celma::log::filter::Filters;
@@ -135,4 +137,36 @@ HX void hx_routing(uint64_t nlogs, uint64_t filtered) {
       int want = ((sel >> i) & 1) && !(i == filtered && level > maxlevel);
       vs_assert(d[i]->count == want, "every selected log hands the message to its destination exactly once, no other log does");
    }
+}
+
+// the logging macros with the cheap level pre-check (LOG_LEVEL -> detail::discard_by_level): for every filter setting of the log
+// (kinds as in hx_filters), every duplicate policy and every message level, the macro delivers exactly what LOG() without the
+// pre-check delivers; a log id / name that does not exist delivers nothing and does not fail.  how: 0 by id, 1 by name
+#define SEND_LEVEL(spec, L) case (int) LogLevel::L: LOG_LEVEL(spec, L) << LogClass::data << "text"; break
+HX void hx_macros(uint64_t policy, uint64_t kinds, uint64_t how) {
+   Filters::setDuplicatePolicy((DP) policy);
+   auto& lg = Logging::instance();
+   id_t id = lg.findCreateLog("app"); id_t other = lg.findCreateLog("other");
+   detail::Log* log = lg.getLog(id); Ref r;
+   for (int i = 0; i < 2; ++i) { int k = (kinds >> (4 * i)) & 15; if (k) apply(*log, r, k, (int) policy, 2, "level"); }
+   RecDest* d = new RecDest; log->addDestination("d", d);
+   RecDest* d2 = new RecDest; lg.getLog(other)->addDestination("d", d2);
+   int level = sym_level("msglevel"); vs_assume(level >= 1);        // level 0 is 'undefined'
+   // (1) without the pre-check
+   LOG(id) << (LogLevel) level << LogClass::data << "text";
+   const int plain = d->count;
+   vs_assert(plain == (r.pass(level, (int) LogClass::data) ? 1 : 0), "LOG() delivers exactly the messages that pass the filters of the log");
+   // (2) with the pre-check
+   int rc = 0;
+   try {
+      if (how == 0) switch (level) { SEND_LEVEL(id, fatal); SEND_LEVEL(id, error); SEND_LEVEL(id, warning); SEND_LEVEL(id, info); SEND_LEVEL(id, debug); SEND_LEVEL(id, fullDebug); }
+      else switch (level) { SEND_LEVEL("app", fatal); SEND_LEVEL("app", error); SEND_LEVEL("app", warning); SEND_LEVEL("app", info); SEND_LEVEL("app", debug); SEND_LEVEL("app", fullDebug); }
+   } catch (...) { rc = 1; }
+   vs_assert(rc == 0, "logging through the macros does not fail");
+   vs_assert(d->count - plain == plain, "the level pre-check of the logging macros neither discards a message that the filters let through nor lets another one through");
+   vs_assert(d2->count == 0, "no other log receives the message");
+   // (3) a log that does not exist
+   const int before = d->count;
+   try { LOG_LEVEL("no-such-log", error) << "text"; LOG_LEVEL((id_t) (other << 1), error) << "text"; } catch (...) { rc = 1; }
+   vs_assert(rc == 0 && d->count == before && d2->count == 0, "a log that does not exist receives nothing, logging to it does not fail");
 }
